@@ -441,7 +441,9 @@ def long_history_scenarios(seed):
     """object A has a long Modbus/TCP history behind it (tens of thousands of requests) when object B makes its few calls"""
     out = []
     rr = [["read_runtime_data"], ["read_setting", "grid_export_limit"]]
-    for a, b, pre in (("ET205", "ET205", 65527), ("ET205", "ET205", 65530), ("DT", "ET205", 65526), ("ET205", "DT", 131060), ("DT", "DT", 65531)):
+    for a, b, pre in (("ET205", "ET205", 65527), ("ET205", "ET205", 65530), ("DT", "ET205", 65526), ("ET205", "DT", 131060), ("DT", "DT", 65531),
+                      # (... and when its transaction ids reach byte patterns that mean something in the OTHER framings: 0xAA55 = the AA55 header)
+                      ("ET205", "ET205", 0xAA55 - 6), ("DT", "ET205", 0xAA55 - 3), ("ET205", "DT", 0xAA55 - 9), ("DT", "DT", 0xAA55 - 2)):
         out.append({"seed": f"{seed}:hist:{a}:{b}", "n_random_merges": 0, "n_concurrent": 1, "long_history": True,
                     "objects": [{"template": a, "port": 502, "seed": f"{seed}:hA{len(out)}", "calls": [["read_runtime_data"]], "pre_tx": pre},
                                 {"template": b, "port": 502, "seed": f"{seed}:hB{len(out)}", "calls": rr}]})
